@@ -10,7 +10,7 @@ import json, os, subprocess, sys, tempfile
 VERIF = os.path.dirname(os.path.dirname(os.path.abspath(__file__)))
 BIN = os.path.join(os.environ.get("ZKSIM_BUILD_DIR") or os.path.join(VERIF, "build"), "bin", "simworker-default")
 
-IDENTITY_PREFIXES = ("pinned_seed", "seeded_keygen", "seeded_ext_keygen", "unseeded_", "seeded_distinct")
+IDENTITY_PREFIXES = ("pinned_seed", "seeded_reference", "seeded_keygen", "seeded_ext_keygen", "unseeded_", "seeded_distinct")
 
 
 def run(seed, pool, tmp, k):
@@ -33,6 +33,8 @@ def invariants(prop, t):
             if k.startswith("pinned_seed") and "match=true" not in v:
                 if prop == "C14":
                     bad.append(f"{k}: documented reference identity not reproduced: {v}")
+            if k.startswith("seeded_reference") and "matches_reference=true" not in v and prop == "C14":
+                bad.append(f"{k}: seeded identity differs from the documented derivation ChaCha20(Keccak-256(seed))")
             if k.startswith(("seeded_keygen", "seeded_ext_keygen")):
                 if "same_across_entry_points=true" not in v and prop == "C14":
                     bad.append(f"{k}: protocol::, RLN:: and ffi:: entry points disagree")
